@@ -108,6 +108,23 @@ gproof! { fn c15_unique_write_does_not_drop_old_slot() {
     core::mem::forget(u);
 } }
 
+// @h props=C15 fuc=UniqueArc::write,UniqueArc::assume_init,Arc::write note="ZERO-SIZED value with a destructor: writing MOVES it into the slot (not destroyed by write), after assume_init it is destroyed exactly once, by the allocation"
+gproof! { fn c15_unique_write_zero_sized_with_drop_moves_value() {
+    let mut u: UniqueArc<MaybeUninit<Zd>> = UniqueArc::new_uninit();
+    u.write(Zd);
+    assert!(unsafe { vrt::ZDROPS } == 0);
+    let finish: bool = kani::any();
+    if finish {
+        let v = unsafe { UniqueArc::assume_init(u) };
+        assert!(unsafe { vrt::ZDROPS } == 0);
+        drop(v);
+        assert!(unsafe { vrt::ZDROPS } == 1 && vrt::glive(0));
+    } else {
+        drop(u);
+        assert!(unsafe { vrt::ZDROPS } == 0 && vrt::glive(0));
+    }
+} }
+
 // @h props=C15,C05 bounded=len<=3 fuc=UniqueArc::from_header_and_uninit_slice,UniqueArc::assume_init_slice_with_header,UniqueArc::drop
 gproof! { #[kani::unwind(5)] fn c15_unique_uninit_slice_with_header_prefix() {
     let len: usize = kani::any();
